@@ -95,18 +95,44 @@ def check_case(case, cell):
     return fails, {"labels": labels, "nontrivial": bool(nt)}
 
 
+def _mpr_true_on_flat_portal(case):
+    """Replays mpr_intersection with the library's own building blocks and
+    reports whether the answer True is taken on a degenerate portal: v0..v3
+    coplanar (relative volume <= 1e-9), so that the portal normal is
+    perpendicular to the origin ray and 'encapsulates the origin' holds
+    wherever the origin lies in that plane."""
+    from distance3d import mpr as M
+    from distance3d.minkowski import support_function
+    a, b = build(case["A"]), build(case["B"])
+    res, portal = M._discover_portal(a, b, 100)
+    if res != M.PortalState.PORTAL_WAS_BUILT:
+        return False
+    for _ in range(200):
+        d = M._portal_direction(portal.v)
+        if not np.all(np.isfinite(d)) or M._encapsulates_origin(portal.v[1], d):
+            v = np.array(portal.v[:4], dtype=float)
+            vol = abs(float(np.linalg.det(v[1:] - v[0])))
+            sc = max(float(np.abs(v).max()), 1e-300)
+            # four distinct vertices (a portal with a repeated vertex is what
+            # the repaired _swap_vertices defect C02-F6 produced)
+            distinct = all(float(np.linalg.norm(v[i] - v[j])) > 1e-9 * sc
+                           for i in range(4) for j in range(i + 1, 4))
+            return distinct and vol <= 1e-9 * sc ** 3
+        sp, s1, s2 = support_function(a, b, d)
+        if (not M._encapsulates_origin(sp, d)) or M._portal_reach_tolerance(portal.v, sp, d, 0.0001):
+            return False
+        M._expand_portal(portal.v, portal.v1, portal.v2, sp, s1, s2)
+    return False
+
+
 def match_known(f, case, known):
-    """C02-K1: mpr_intersection on two flat shapes lying in the same plane.
-    Their Minkowski difference is flat, the portal normal is perpendicular to
-    it and 'portal encapsulates the origin' holds for every in-plane position
-    of the origin: separated coplanar pairs are reported as colliding."""
+    """C02-K1: mpr_intersection answers True on a degenerate portal. Seen for
+    two flat shapes lying in the same plane (flat Minkowski difference) and
+    for scenes that are mirror symmetric about a plane through both centres
+    (every portal vertex and the origin ray lie in that plane)."""
     ids = {k["id"] for k in known}
     if "C02-K1" in ids and f["bucket"].startswith("false-collision/mpr/"):
-        tr = S.truth(case)
-        A, B = tr["A"], tr["B"]
-        if A.flat and B.flat and A.kind in ("disk", "ellipse") and B.kind in ("disk", "ellipse"):
-            n = A.R[:, 2]
-            if abs(float(n.dot(B.R[:, 2]))) >= 1.0 - 1e-9 and \
-                    abs(float(n.dot(B.center() - A.center()))) <= 1e-9 * tr["L"]:
-                return "C02-K1"
+        r = call_lib(_mpr_true_on_flat_portal, case)
+        if r is True:
+            return "C02-K1"
     return None
